@@ -37,8 +37,7 @@ What is OPEN today (each with a `_partial` theorem, a `_counterexample` theorem 
 `print_well_parenthesised` (`yield`, decimal integer before `.attr`, slices in a tuple, a lambda / conditional
 expression pasted as filter callee), `adjust_ws_spec` and `flush_adjusted_spec` (the two line state machines against
 ordinary string literals, escapes, comments), `identifiers_exact` (comprehension variables, default values,
-decorators, classes, nested-function locals, `del`), `def_attributes_never_demand_own_parameters` (positional-only
-parameters of a `<%def>`).  Unguarded: `print_balanced`, the side conditions, and the
+decorators, classes, nested-function locals, `del`).  Unguarded: `def_attributes_never_demand_own_parameters`, `print_balanced`, the side conditions, and the
 theorems about `Spec.remargin` / `Spec.reindent` / `Spec.roundtrip` themselves.
 
 `OPEN` marks a full-strength statement that is false of the code as it stands: the `_partial` theorem carries an
@@ -590,50 +589,48 @@ theorem identifiers_exact_counterexample_missing :
 /-! ## a def's own parameters in its attribute expressions (`filter=`, `cache_key`, …) -/
 
 /-- the regenerated chain `DefTag.undeclared_identifiers` → `FunctionDecl.allargnames` → `ParseFunc`: the def
-subtracts, and the def/block/page declare, `allargnames` = `argnames + kwargnames` = ordinary + `*args` +
-keyword-only + `**kwargs` parameters -/
+subtracts, and the def/block/page declare, `allargnames` = `argnames + kwargnames` = positional-only + ordinary +
+`*args` + keyword-only + `**kwargs` parameters -/
 theorem def_tag_knows_all_parameters :
     String.ofList Generated.PyExpr.defTagSubtracted = "allargnames"
     ∧ String.ofList Generated.PyExpr.defTagDeclared = "allargnames"
     ∧ String.ofList Generated.PyExpr.blockTagDeclared = "allargnames"
     ∧ String.ofList Generated.PyExpr.pageTagDeclared = "allargnames"
     ∧ Generated.PyExpr.allargnamesParts.map String.ofList = ["argnames", "kwargnames"]
-    ∧ Generated.PyExpr.argnamesSources.map String.ofList = ["args", "vararg"]
+    ∧ Generated.PyExpr.argnamesSources.map String.ofList = ["posonlyargs", "args", "vararg"]
     ∧ Generated.PyExpr.kwargnamesSources.map String.ofList = ["kwonlyargs", "kwarg"] := by decide
 
-/- OPEN  def_attributes_never_demand_own_parameters : ∀ a reads x, x ∈ Spec.paramNames a → x ∉ defTagDemands a reads
-   false today only for positional-only parameters: `ParseFunc` never looks at `posonlyargs`, so they are missing
-   from the generated signature altogether (recorded finding). -/
-
-/-- **def_attributes_never_demand_own_parameters_partial.** For every signature without positional-only
-parameters and every set of names read by the def's default values, `filter=` arguments and expression attributes:
-no parameter of the def - ordinary, `*args`, keyword-only, `**kwargs` - is among the names the enclosing scope is
-asked to fetch from the context; and the names the def declares are exactly its parameters. -/
-theorem def_attributes_never_demand_own_parameters_partial (a : Args) (reads : List Str) (x : Str)
-    (hp : a.posonlyNames = []) (hx : x ∈ Spec.paramNames a) :
-    x ∉ defTagDemands a reads ∧ x ∈ defTagDeclares a := by
+/-- **def_attributes_never_demand_own_parameters.** For every signature and every set of names read by the def's
+default values, `filter=` arguments and expression attributes: no parameter of the def - positional-only (since
+266703c), ordinary, `*args`, keyword-only, `**kwargs` - is among the names the enclosing scope is asked to fetch from
+the context; and the def declares it. (Full statement: no guard.) -/
+theorem def_attributes_never_demand_own_parameters (a : Args) (reads : List Str) (x : Str)
+    (hx : x ∈ Spec.paramNames a) : x ∉ defTagDemands a reads ∧ x ∈ defTagDeclares a := by
   cases a with
   | mk po ar va ko kd kw de =>
-    simp only [Args.posonlyNames] at hp
-    subst hp
-    have hx' : x ∈ ar ∨ x ∈ va.toList ∨ x ∈ ko ∨ x ∈ kw.toList := by
+    have hx' : x ∈ po ∨ x ∈ ar ∨ x ∈ va.toList ∨ x ∈ ko ∨ x ∈ kw.toList := by
       simpa [Spec.paramNames, or_assoc] using hx
-    refine ⟨?_, (declField_declared [] ar va ko kd kw de x).mpr hx'⟩
+    refine ⟨?_, (declField_declared po ar va ko kd kw de x).mpr hx'⟩
     intro h
     simp only [defTagDemands, List.mem_filter, List.contains_eq_mem, Bool.not_eq_true', decide_eq_false_iff_not] at h
-    exact h.2 ((declField_subtracted [] ar va ko kd kw de x).mpr hx')
+    exact h.2 ((declField_subtracted po ar va ko kd kw de x).mpr hx')
 
-/-- the hypotheses are satisfiable: `f(t, *r, w=3, **kw)` with `filter="pad(w, kw)"` -/
-example : (Args.mk [] [['t']] (some ['r']) [['w']] [some (.const .int ['3'])] (some ['k', 'w']) []).posonlyNames = []
-    ∧ ['w'] ∈ Spec.paramNames (Args.mk [] [['t']] (some ['r']) [['w']] [some (.const .int ['3'])] (some ['k', 'w']) [])
+/-- conversely, the def declares nothing but its parameters -/
+theorem def_declares_only_parameters (a : Args) (x : Str) (hx : x ∈ defTagDeclares a) : x ∈ Spec.paramNames a := by
+  cases a with
+  | mk po ar va ko kd kw de =>
+    have := (declField_declared po ar va ko kd kw de x).mp hx
+    simpa [Spec.paramNames, or_assoc] using this
+
+/-- the hypothesis is satisfiable: `f(t, *r, w=3, **kw)` with `filter="pad(w, kw)"` -/
+example : ['w'] ∈ Spec.paramNames (Args.mk [] [['t']] (some ['r']) [['w']] [some (.const .int ['3'])] (some ['k', 'w']) [])
     ∧ defTagDemands (Args.mk [] [['t']] (some ['r']) [['w']] [some (.const .int ['3'])] (some ['k', 'w']) [])
         [['p', 'a', 'd'], ['w'], ['k', 'w']] = [['p', 'a', 'd']] := by decide
 
-/-- `f(a, /, b)` with `filter="g(a)"`: the positional-only `a` is demanded from the enclosing scope (and is missing
-from the generated signature) -/
-theorem def_attributes_counterexample_posonly :
-    ['a'] ∈ Spec.paramNames (Args.mk [['a']] [['b']] none [] [] none [])
-    ∧ defTagDemands (Args.mk [['a']] [['b']] none [] [] none []) [['g'], ['a']] = [['g'], ['a']]
-    ∧ defTagDeclares (Args.mk [['a']] [['b']] none [] [] none []) = [['b']] := by decide
+/-- regression (the defect repaired by 266703c, kept as a concrete instance): `f(a, /, b)` with `filter="g(a)"` -
+the positional-only `a` is not demanded from the enclosing scope, and is declared -/
+theorem def_attributes_posonly_regression :
+    defTagDemands (Args.mk [['a']] [['b']] none [] [] none []) [['g'], ['a']] = [['g']]
+    ∧ defTagDeclares (Args.mk [['a']] [['b']] none [] [] none []) = [['a'], ['b']] := by decide
 
 end MakoModel.C19
